@@ -84,7 +84,7 @@ fn check(bytes: &[u8], stats: &mut Stats) -> Verdict {
             (p, k)
         };
         stats.class(&format!("gen_{}", kind));
-        let fen = p.fen(0, 1);
+        let fen = eng::fen(&p);
         let b = guarded("Board::new", || eng::to_board(&p))?;
         let v = guarded("evaluate", || long_lived.evaluate(&b))?;
         let v_again = guarded("evaluate", || long_lived.evaluate(&b))?;
@@ -103,7 +103,7 @@ fn check(bytes: &[u8], stats: &mut Stats) -> Verdict {
         let sb = guarded("Board::new", || eng::to_board(&sp))?;
         let sv = guarded("evaluate", || long_lived.evaluate(&sb))?;
         if sv != -v {
-            return Err(Failure::new("not-antisymmetric", json!({"fen": fen, "eval": v, "side_swapped_fen": sp.fen(0,1), "side_swapped_eval": sv})));
+            return Err(Failure::new("not-antisymmetric", json!({"fen": fen, "eval": v, "side_swapped_fen": eng::fen(&sp), "side_swapped_eval": sv})));
         }
         if sp.opponent_in_check() {
             stats.class("side_swap_not_a_valid_position");
@@ -113,7 +113,7 @@ fn check(bytes: &[u8], stats: &mut Stats) -> Verdict {
         let mb = guarded("Board::new", || eng::to_board(&mp))?;
         let mv = guarded("evaluate", || long_lived.evaluate(&mb))?;
         if mv != v {
-            return Err(Failure::new("mirror-asymmetric", json!({"fen": fen, "eval": v, "mirror_fen": mp.fen(0,1), "mirror_eval": mv})));
+            return Err(Failure::new("mirror-asymmetric", json!({"fen": fen, "eval": v, "mirror_fen": eng::fen(&mp), "mirror_eval": mv})));
         }
         // bound
         if v.abs() >= BOUND {
